@@ -23,10 +23,6 @@ CONSTANTS
   Export = TRUE
 INVARIANT DegenerateEqualsXsec
 INVARIANT TransmittanceInUnitInterval
-INVARIANT BetweenExtremes
-INVARIANT JensenLowerBound
-INVARIANT KTelescoping
-INVARIANT KHotColdBounds
 INVARIANT KFitsInv
 CONSTRAINT KEmitVec
 CHECK_DEADLOCK FALSE
